@@ -94,7 +94,10 @@ def invert4rankTensor(c4):
     This is done by converting to 2nd rank, inverting, then converting back to 4th rank
     '''
     c2 = convert4To2rankTensor(c4)
-    return convert2To4rankTensor(np.linalg.inv(c2))
+    #a_ijkl*b_kl counts each shear pair (kl and lk) twice, so the 6x6 inverse has to be
+    #scaled back for a_ijmn*inv_mnkl to be the (symmetric) 4th rank identity
+    w = np.array([1, 1, 1, 2, 2, 2])
+    return convert2To4rankTensor(np.linalg.inv(c2) / np.outer(w, w))
 
 def convertVecTo2rankTensor(v):
     '''
